@@ -86,7 +86,7 @@ def parse_unit(path):
     """-> dict(name, props, allow, segments).  segments: ('text', lines) | ('block', header, lines, lineno)."""
     lines = open(path, encoding='utf-8').read().split('\n')
     unit = {'path': path, 'name': os.path.splitext(os.path.basename(path))[0], 'props': [], 'allow': [],
-            'segments': [], 'kani': [], 'allow_attr': []}
+            'segments': [], 'kani': [], 'allow_attr': [], 'rewrites': [], 'strip_attrs': [], 'hoist_format': None}
     cur = []
     block = None
     for no, ln in enumerate(lines, 1):
@@ -107,6 +107,19 @@ def parse_unit(path):
                 if not m:
                     raise ExtractError('%s:%d: bad allow-delete-attr' % (path, no))
                 unit['allow_attr'].append({'names': m.group(1).split('|'), 'why': m.group(2)})
+                cur.append(ln)
+            elif d.startswith('rewrite '):
+                m = re.match(r'rewrite\s+`([^`]*)`\s*=>\s*`([^`]*)`\s*::\s*(.*)$', d)
+                if not m:
+                    raise ExtractError('%s:%d: bad rewrite' % (path, no))
+                unit['rewrites'].append({'old': texts(lex(m.group(1))), 'new': m.group(2), 'why': m.group(3), 'old_text': m.group(1)})
+                cur.append(ln)
+            elif d.startswith('strip-attrs '):
+                m = re.match(r'strip-attrs\s+(\S+)\s*::\s*(.*)$', d)
+                unit['strip_attrs'].append({'names': m.group(1).split('|'), 'why': m.group(2)})
+                cur.append(ln)
+            elif d.startswith('hoist-format-captures'):
+                unit['hoist_format'] = d.split('::', 1)[-1].strip() or 'format! inline captures hoisted to positional arguments'
                 cur.append(ln)
             elif d.startswith('fn ') or d.startswith('item '):
                 if block is not None:
@@ -207,6 +220,63 @@ def classify_insertion(t):
         if re.match(pat, s, re.S):
             return kind
     return 'unclassified'
+
+
+_CAPTURE = re.compile(r'\{([A-Za-z_][A-Za-z0-9_]*)(:[^}]*)?\}')
+
+
+def normalise(unit, text, log=None):
+    """The mechanical, unit-wide rewrites of a real item (applied before anything else, to the current
+    repository text): attribute stripping, token rewrites from //@rewrite, format! capture hoisting."""
+    from rslex import match_close
+    ts = lex(text)
+    edits = []  # (start, end, replacement)
+    # attribute stripping
+    names = {}
+    for a in unit.get('strip_attrs', []):
+        for n in a['names']:
+            names[n] = a['why']
+    k = 0
+    while k < len(ts):
+        if names and ts[k][1] == '#' and k + 2 < len(ts) and ts[k + 1][1] == '[' and ts[k + 2][1] in names:
+            e = match_close(ts, k + 1)
+            edits.append((ts[k][2], ts[e][3], ''))
+            if log is not None:
+                log.append({'kind': 'strip-attr', 'text': ' '.join(text[ts[k][2]:ts[e][3]].split())[:80], 'why': names[ts[k + 2][1]]})
+            k = e + 1
+            continue
+        hit = False
+        for rw in unit.get('rewrites', []):
+            n = len(rw['old'])
+            if n and [t[1] for t in ts[k:k + n]] == rw['old']:
+                edits.append((ts[k][2], ts[k + n - 1][3], rw['new']))
+                if log is not None:
+                    log.append({'kind': 'rewrite', 'old': rw['old_text'], 'new': rw['new'], 'why': rw['why']})
+                k += n
+                hit = True
+                break
+        if hit:
+            continue
+        if unit.get('hoist_format') and ts[k][1] == 'format' and k + 3 < len(ts) and ts[k + 1][1] == '!' and ts[k + 2][1] == '(' and ts[k + 3][0] == 'str':
+            lit = ts[k + 3]
+            caps = _CAPTURE.findall(lit[1])
+            close = match_close(ts, k + 2)
+            if caps and close == k + 4 or (caps and ts[k + 4][1] == ',' and close == k + 5):
+                newlit = _CAPTURE.sub(lambda m: '{' + (m.group(2) or '') + '}', lit[1])
+                edits.append((lit[2], lit[3], newlit + ''.join(', ' + c[0] for c in caps)))
+                if log is not None:
+                    log.append({'kind': 'hoist-format-captures', 'old': lit[1], 'new': newlit + ''.join(', ' + c[0] for c in caps), 'why': unit['hoist_format']})
+        k += 1
+    if not edits:
+        return text
+    out = []
+    pos = 0
+    for s_, e_, r in sorted(edits):
+        out.append(text[pos:s_])
+        out.append(r)
+        pos = e_
+    out.append(text[pos:])
+    return ''.join(out)
 
 
 def real_item_text(block):
@@ -338,6 +408,8 @@ def generate(unit_path, out_path):
         edits = audit_edits(unit, chunks, '%s:%d %s' % (unit_path, b['lineno'], name))
         try:
             real, real_line = real_item_text(b)
+            nlog = []
+            real = normalise(unit, real, nlog)
         except LostAnchor as e:
             report['lost'].append(str(e))
             emit([b['header']], None)
@@ -350,7 +422,8 @@ def generate(unit_path, out_path):
                 'sha256': hashlib.sha256(real.encode()).hexdigest()[:16], 'tokens': len(cur), 'changed': False,
                 'insertions': sum(1 for e in edits if e['kind'] not in ('replace', 'delete')),
                 'replacements': [e for e in edits if e['kind'] in ('replace', 'delete')],
-                'unclassified_insertions': [e['text'] for e in edits if e['kind'] == 'unclassified']}
+                'unclassified_insertions': [e['text'] for e in edits if e['kind'] == 'unclassified'],
+                'normalisations': nlog}
         emit([b['header']], None)
         if base == cur:
             body = resolve(chunks)
